@@ -129,6 +129,7 @@ type ribGen struct {
 	// what the generator believes is installed (only to bias choices; never used as an oracle)
 	nh, nhg map[[2]int]bool
 	prof    string
+	queue   []RStep // steps of a scripted block still to be emitted
 }
 
 func (g *ribGen) id() uint64 { g.nextID++; return g.nextID }
@@ -238,6 +239,31 @@ func (g *ribGen) entry(o *drv.OpSpec) {
 }
 
 func (g *ribGen) step() RStep {
+	if len(g.queue) > 0 {
+		st := g.queue[0]
+		g.queue = g.queue[1:]
+		return st
+	}
+	if g.r.Chance(1, 25) {
+		// scripted block: two next-hops, a group of both, and the group programmed again with a list of the
+		// same length that names only the first ({a,b} -> [a,a]); the probes at the end ask for b's DELETE
+		ni := g.ni()
+		a := uint64(1 + g.r.Intn(3))
+		b := 1 + a%3
+		k := g.small()
+		w := uint64(1 + g.r.Intn(4))
+		mk := func(o drv.OpSpec) RStep {
+			o.ID, o.NI = g.id(), ni
+			g.hist = append(g.hist, o)
+			return RStep{K: "add", Op: &o}
+		}
+		g.queue = []RStep{
+			mk(drv.OpSpec{Kind: "ADD", T: "nh", Key: b}),
+			mk(drv.OpSpec{Kind: "ADD", T: "nhg", Key: k, NHs: [][2]uint64{{a, w}, {b, 1}}}),
+			mk(drv.OpSpec{Kind: drv.Pick(g.r, "ADD", "REPLACE"), T: "nhg", Key: k, NHs: [][2]uint64{{a, w}, {a, w}}}),
+		}
+		return mk(drv.OpSpec{Kind: "ADD", T: "nh", Key: a})
+	}
 	if g.r.Chance(1, 50) {
 		// the configuration is applied again: a network instance that exists already (refused, nothing changes)
 		return RStep{K: "addni", NI: drv.Pick(g.r, 1, 2, 3)}
@@ -248,6 +274,27 @@ func (g *ribGen) step() RStep {
 			return RStep{K: "flush", NIs: []int{1, 2, 3}}
 		}
 		return RStep{K: "flush", NIs: [][]int{{1}, {2}, {3}, {1, 2}, {2, 3}}[g.r.Intn(5)]}
+	}
+	if len(g.hist) > 0 && g.r.Chance(1, 8) {
+		// an earlier group of two or more members is programmed again with every position naming its first
+		// member: the list is as long as before, all of it was a member already, and the others lose a referrer
+		var c []drv.OpSpec
+		for _, h := range g.hist {
+			if h.T == "nhg" && !h.Nil && len(h.NHs) >= 2 && h.NHs[0][0] != h.NHs[1][0] {
+				c = append(c, h)
+			}
+		}
+		if len(c) > 0 {
+			o := c[len(c)-1-g.r.Intn((len(c)+1)/2)] // one of the later ones: more likely still installed
+			nhs := make([][2]uint64, len(o.NHs))
+			for i := range nhs {
+				nhs[i] = o.NHs[0]
+			}
+			o.NHs = nhs
+			o.ID = g.id()
+			o.Kind = drv.Pick(g.r, "ADD", "REPLACE")
+			return RStep{K: "add", Op: &o}
+		}
 	}
 	if len(g.hist) > 0 && g.r.Chance(1, 12) {
 		// an earlier operation's key is deleted (exactly as it was spelled)
@@ -278,7 +325,25 @@ func (g *ribGen) step() RStep {
 				o.NHs = append([][2]uint64{}, o.NHs[:1]...)
 			}
 		default:
-			if len(o.X) > 0 {
+			if o.T == "nhg" && len(o.NHs) >= 2 && g.r.Chance(1, 2) {
+				// the next-hop set is rewritten at equal list length: every position names the first member
+				// ({a,b} -> [a,a]: b loses its referrer although the list is as long as before), or the
+				// last position moves to another index
+				nhs := append([][2]uint64{}, o.NHs...)
+				if g.r.Chance(1, 2) {
+					for i := range nhs {
+						nhs[i] = nhs[0]
+					}
+				} else {
+					nhs[len(nhs)-1] = [2]uint64{1 + nhs[len(nhs)-1][0]%3, nhs[len(nhs)-1][1]}
+					for i := range nhs[:len(nhs)-1] { // a repeated member keeps its weight
+						if nhs[i][0] == nhs[len(nhs)-1][0] {
+							nhs[len(nhs)-1][1] = nhs[i][1]
+						}
+					}
+				}
+				o.NHs = nhs
+			} else if len(o.X) > 0 {
 				x := append([][2]uint64{}, o.X...)
 				x[0][1] = 1 + x[0][1]%2
 				o.X = x
